@@ -20,6 +20,7 @@ import os
 import random
 import shutil
 import warnings
+import zlib
 
 import numpy as np
 
@@ -28,9 +29,9 @@ from .common import Check, MachineryError, run_tlc_sharded, require_model_ok
 from .realeval import ev, close
 
 INVS = {
-    "prq": ["InvPRInRange", "InvPRScaleInvariant", "InvPRExtremes", "InvPQInRange", "InvPQExtremes", "InvAlignUniform"],
-    "divcurl": ["InvNoTie", "InvFastImage", "InvLinearField", "InvDivCurlShift"],
-    "vib": ["InvVibSumRule", "InvVibFreqScaling"],
+    "prq": ["InvPRInRange", "InvPRScaleInvariant", "InvPRExtremes", "InvPQInRange", "InvPQExtremes", "InvAlignUniform", "InvRowOrder"],
+    "divcurl": ["InvNoTie", "InvFastImage", "InvLinearField", "InvDivCurlShift", "InvRowOrder"],
+    "vib": ["InvVibSumRule", "InvVibFreqScaling", "InvVibSignInvariant", "InvVibIsLiteral"],
     "decomp": ["InvLParallelQ", "InvTOrthogonalQ", "InvPartsAddUp", "InvSqSplits", "InvMinusQ"],
     "corr": ["InvCorrSplits", "InvCorrLagZero"],
 }
@@ -47,12 +48,47 @@ TOL_COR = dict(atol=2e-6, rtol=2e-6)
 # rendering of abstract inputs
 # --------------------------------------------------------------------------
 
-def write_nl(path, nl, frames=1):
+def write_nl(path, nl, frames=1, rows=None):
+    """nl[i] = listed ids of particle i+1, written in ascending id order; or rows = [{"id", "list"}, ...]
+    as stated by the specification (VectorField!NlRows): rows in any order, the id column decides"""
+    if rows is None:
+        rows = [{"id": i + 1, "list": row} for i, row in enumerate(nl)]
     with open(path, "w") as f:
         for _ in range(frames):
             f.write("id     cn     neighborlist\n")
-            for i, row in enumerate(nl):
-                f.write(f"{i + 1} {len(row)} " + " ".join(str(j) for j in row) + "\n")
+            for r in rows:
+                f.write(f"{r['id']} {len(r['list'])} " + " ".join(str(j) for j in r["list"]) + "\n")
+
+
+VARIANTS = ("float64", "readonly", "strided", "int-or-fortran")
+
+
+def variant_of(case, salt=0):
+    """rendering class of the arrays handed to the library (a deterministic function of the case)"""
+    key = json.dumps([case.get("id"), case.get("e") or case.get("u") or case.get("om") or case.get("cloud")
+                      or case.get("fr") or case.get("pos"), salt])
+    return zlib.crc32(key.encode()) % 4
+
+
+def render(a, scale, variant):
+    """the integer array a / scale as a numpy array of one of four kinds: plain float64, read-only float64,
+    a non-contiguous (strided) view, integer dtype (when scale = 1; Fortran order otherwise).  The value is
+    the same in every kind; only the representation differs."""
+    ai = np.array(a)
+    x = np.array(a, dtype=float) / scale
+    if variant == 1:
+        x.setflags(write=False)
+        return x
+    if variant == 2:
+        big = np.full(tuple(2 * n for n in x.shape), 7.25)
+        sl = tuple(slice(None, None, 2) for _ in x.shape)
+        big[sl] = x
+        return big[sl]
+    if variant == 3:
+        if scale == 1 and np.issubdtype(ai.dtype, np.integer):
+            return ai.astype(np.int64 if ai.size % 2 else np.int32)
+        return np.asfortranarray(x)
+    return x
 
 
 def snapshot(lib, positions, hmatrix, timestep=0, types=None):
@@ -108,13 +144,22 @@ def _call(chk, clause, case_id, fn, *a, **k):
 # replay of the five case kinds (direction A and B share these)
 # --------------------------------------------------------------------------
 
+def _count_variant(chk, var, rows=None):
+    k = "inputs_rendered_as_" + VARIANTS[var]
+    chk.extra[k] = chk.extra.get(k, 0) + 1
+    if rows is not None and [r["id"] for r in rows] != sorted(r["id"] for r in rows):
+        chk.extra["neighbour_files_with_rows_out_of_id_order"] = chk.extra.get("neighbour_files_with_rows_out_of_id_order", 0) + 1
+
+
 def replay_prq(chk, V, case, tmp, tag="A"):
     cid = case
+    var = variant_of(case)
     vec = np.array(case["e"], dtype=float) / case["S"]
+    mk = lambda: render(case["e"], case["S"], var)      # a fresh array of the case's rendering class per call
     nlf = os.path.join(tmp, "nl.dat")
-    write_nl(nlf, case["nl"])
+    write_nl(nlf, case["nl"], rows=case.get("rows"))
     good = True
-    ok_, pr = _call(chk, "ParticipationRatio", cid, V.participation_ratio, vec.copy())
+    ok_, pr = _call(chk, "ParticipationRatio", cid, V.participation_ratio, mk())
     if not ok_:
         return
     good &= _cmp(chk, "ParticipationRatio", cid, float(pr), case["pr"], "PR")
@@ -122,7 +167,7 @@ def replay_prq(chk, V, case, tmp, tag="A"):
     ok_, pr2 = _call(chk, "PRScaleInvariant", cid, V.participation_ratio, vec * -3.5)
     if ok_:
         good &= _cmp(chk, "PRScaleInvariant", cid, float(pr2), case["pr"], "PR(-3.5 e)")
-    ok_, al = _call(chk, "Alignment", cid, V.local_vector_alignment, vec.copy(), nlf)
+    ok_, al = _call(chk, "Alignment", cid, V.local_vector_alignment, mk(), nlf)
     if not ok_:
         return
     al = np.asarray(al)
@@ -136,7 +181,7 @@ def replay_prq(chk, V, case, tmp, tag="A"):
     if case["pq"] == "undef":
         chk.tie()      # 0/0: outside the asserted scope
     else:
-        ok_, pq = _call(chk, "PhaseQuotient", cid, V.phase_quotient, vec.copy(), nlf)
+        ok_, pq = _call(chk, "PhaseQuotient", cid, V.phase_quotient, mk(), nlf)
         if not ok_:
             return
         good &= _cmp(chk, "PhaseQuotient", cid, float(pq), case["pq"], "PQ")
@@ -144,6 +189,7 @@ def replay_prq(chk, V, case, tmp, tag="A"):
             chk.violation("PQInRange", {**cid, "observed": float(pq)})
             good = False
     if good:
+        _count_variant(chk, var, case.get("rows"))
         chk.ok((tag, "prq", case["id"], str(case["e"]), str(case["nl"])),
                sample={"kind": "prq", "e": case["e"], "nl": case["nl"], "S": case["S"], "PR": case["pr"], "PQ": case["pq"]})
 
@@ -152,10 +198,14 @@ def replay_divcurl(chk, V, case, tmp, tag="A"):
     cid = case
     S, SU, d = case["S"], case["SU"], case["d"]
     snap = snapshot(None, np.array(case["pos"], dtype=float) / S, np.array(case["H"], dtype=float) / S)
-    u = np.array(case["u"], dtype=float) / SU
+    var = variant_of(case)
+    u = render(case["u"], SU, var)
     nlf = os.path.join(tmp, "nl.dat")
-    write_nl(nlf, case["nl"])
-    ok_, res = _call(chk, "DivergenceCurl", cid, V.divergence_curl, snap, u.copy(), np.array(case["ppp"]), nlf)
+    write_nl(nlf, case["nl"], rows=case.get("rows"))
+    ppp = np.array(case["ppp"])
+    if var == 1:
+        ppp.setflags(write=False)
+    ok_, res = _call(chk, "DivergenceCurl", cid, V.divergence_curl, snap, u, ppp, nlf)
     if not ok_:
         return
     if d == 2:
@@ -176,6 +226,7 @@ def replay_divcurl(chk, V, case, tmp, tag="A"):
             for a in range(3):
                 if not _cmp(chk, "Curl", cid, float(curl[i, a]), case["curl"][i][a], f"curl[{i}][{a}]"):
                     return
+    _count_variant(chk, var, case.get("rows"))
     chk.ok((tag, "divcurl", case["id"], str(case["pos"]), str(case["u"]), str(case["nl"]), str(case["ppp"])),
            sample={"kind": "divcurl", "H": case["H"], "ppp": case["ppp"], "pos": case["pos"], "u": case["u"],
                    "nl": case["nl"], "div": case["div"]})
@@ -183,10 +234,15 @@ def replay_divcurl(chk, V, case, tmp, tag="A"):
 
 def replay_vib(chk, V, case, tmp, tag="A"):
     cid = case
-    om = np.array(case["om"], dtype=float) / case["SO"]
-    evs = np.array(case["ev"], dtype=float) / case["S"]
+    var = variant_of(case)
+    om = render(case["om"], case["SO"], var)
+    evs = render(case["ev"], case["S"], var)
     out = os.path.join(tmp, "vib.npy")
-    ok_, res = _call(chk, "Vibrability", cid, V.vibrability, om.copy(), evs.copy(), case["n"], outputfile=out)
+    if case["id"] % 2:
+        ok_, res = _call(chk, "Vibrability", cid, V.vibrability, om, evs, case["n"], outputfile=out)
+    else:          # documented default: no output file
+        out = None
+        ok_, res = _call(chk, "Vibrability", cid, V.vibrability, om, evs, case["n"])
     if not ok_:
         return
     res = np.asarray(res)
@@ -196,9 +252,14 @@ def replay_vib(chk, V, case, tmp, tag="A"):
     for i, t in enumerate(case["vib"]):
         if not _cmp(chk, "Vibrability", cid, float(res[i]), t, f"vib[{i}]"):
             return
-    if os.path.exists(out) and not np.array_equal(np.load(out), res):
+    if out and not (os.path.exists(out) and np.array_equal(np.load(out), res)):
         chk.violation("Vibrability:file", cid)
         return
+    if out:
+        os.unlink(out)
+    _count_variant(chk, var)
+    if any(o < 0 for o in case["om"]):
+        chk.extra["vib_cases_with_negative_frequency_entries"] = chk.extra.get("vib_cases_with_negative_frequency_entries", 0) + 1
     chk.ok((tag, "vib", case["id"]), sample={"kind": "vib", "om": case["om"], "SO": case["SO"], "vib": case["vib"]})
 
 
@@ -270,15 +331,21 @@ def replay_decomp(chk, V, case, tmp, tag="A"):
     L = np.array(case["L"], dtype=float)
     pos = np.array(case["pm"], dtype=float) * L[None, :] / M
     snap = snapshot(None, pos, np.diag(L))
-    vec = np.array(case["e"], dtype=float) / case["S"]
+    var = variant_of(case)
+    vec = render(case["e"], case["S"], var)
     qv = np.array([r["n"] for r in case["rows"]], dtype=int)
+    if var == 1:
+        qv.setflags(write=False)
+    elif var == 2:
+        qv = np.asfortranarray(qv)
     out = os.path.join(tmp, "dec")
-    ok_, res = _call(chk, "Decomposition", cid, V.vector_decomposition_sq, snap, qv.copy(), vec.copy(), outputfile=out)
+    ok_, res = _call(chk, "Decomposition", cid, V.vector_decomposition_sq, snap, qv, vec, outputfile=out)
     if not ok_:
         return
     df, ave = res
     if not _check_decomp_frame(chk, cid, df, ave, case["rows"], case.get("ave"), d):
         return
+    _count_variant(chk, var)
     chk.ok((tag, "decomp", case["id"], str(case["pm"]), str(case["e"]), str(case["L"])),
            sample={"kind": "decomp", "L": case["L"], "pm": case["pm"], "e": case["e"], "n_q": len(case["rows"]),
                    "row0": {k: case["rows"][0][k] for k in ("n", "sq", "sql", "sqt")}})
@@ -296,13 +363,19 @@ def replay_corr(chk, V, case, tmp, tag="A"):
     for f in range(T):
         pos = np.array(case["fr"][f]["m"], dtype=float) * L[None, :] / 4
         snaps.append(snapshot(None, pos, np.diag(L), timestep=case["ts"][f]))
-        vecs.append(np.array(case["fr"][f]["e"], dtype=float) / case["S"])
+        vecs.append(case["fr"][f]["e"])
     snaps = Snapshots(nsnapshots=T, snapshots=snaps)
-    vecs = np.array(vecs)
+    var = variant_of(case)
+    vecs = render(vecs, case["S"], var)
     qv = np.array(case["qs"], dtype=int)
+    if var == 1:
+        qv.setflags(write=False)
     dt = case["dtn"] / case["dtd"]
     out = os.path.join(tmp, "corr")
-    ok_, res = _call(chk, "FFTCorrelation", cid, V.vector_fft_corr, snaps, qv.copy(), vecs.copy(), dt=dt, outputfile=out)
+    if (case["dtn"], case["dtd"]) == (1, 500):      # the documented default time step
+        ok_, res = _call(chk, "FFTCorrelation", cid, V.vector_fft_corr, snaps, qv, vecs, outputfile=out)
+    else:
+        ok_, res = _call(chk, "FFTCorrelation", cid, V.vector_fft_corr, snaps, qv, vecs, dt=dt, outputfile=out)
     if not ok_:
         return
     undefined = 0
@@ -350,6 +423,7 @@ def replay_corr(chk, V, case, tmp, tag="A"):
                 return
     if undefined:
         chk.extra["corr_columns_undefined_0_over_0"] = chk.extra.get("corr_columns_undefined_0_over_0", 0) + undefined
+    _count_variant(chk, var)
     chk.ok((tag, "corr", case["id"]),
            sample={"kind": "corr", "L": case["L"], "ts": case["ts"], "linear": case["linear"], "qs": case["qs"],
                    "L_FFT": case["L_FFT"][0]})
@@ -371,6 +445,19 @@ def _rand_nl(rng, n, kmax):
     return nl
 
 
+def _rand_om(rng, nm):
+    """frequency entries of either sign: all positive, all negative or mixed"""
+    kind = rng.choice(["pos", "neg", "mixed", "mixed"])
+    return [rng.randint(1, 6) * (1 if kind == "pos" else -1 if kind == "neg" else rng.choice([1, -1])) for _ in range(nm)]
+
+
+def _rand_order(rng, n):
+    order = list(range(1, n + 1))
+    if rng.random() < 0.6:
+        rng.shuffle(order)
+    return order
+
+
 def gen_records(rng, nrec):
     recs = []
     kinds = ["prq", "divcurl", "vib", "decomp"]
@@ -381,7 +468,7 @@ def gen_records(rng, nrec):
             n = rng.randint(6, 40)
             recs.append({"m": "prq", "id": len(recs), "d": d, "S": rng.choice([1, 3, 10, 100]),
                          "e": [[rng.randint(-9, 9) for _ in range(d)] for _ in range(n)],
-                         "nl": _rand_nl(rng, n, 14)})
+                         "nl": _rand_nl(rng, n, 14), "order": _rand_order(rng, n)})
         elif kind == "divcurl":
             n = rng.randint(6, 30)
             S = 10
@@ -396,12 +483,12 @@ def gen_records(rng, nrec):
                          "S": S, "SU": rng.choice([1, 10]),
                          "pos": [[rng.randint(-40, 160) for _ in range(d)] for _ in range(n)],
                          "u": [[rng.randint(-20, 20) for _ in range(d)] for _ in range(n)],
-                         "nl": _rand_nl(rng, n, 12), "A": []})
+                         "nl": _rand_nl(rng, n, 12), "A": [], "order": _rand_order(rng, n)})
         elif kind == "vib":
             n = rng.randint(2, 12)
             nm = rng.choice([1, d * n - d, d * n])
             recs.append({"m": "vib", "id": len(recs), "d": d, "n": n, "S": rng.choice([1, 10]), "SO": rng.choice([1, 2]),
-                         "om": [rng.randint(1, 6) for _ in range(nm)],
+                         "om": _rand_om(rng, nm),
                          "ev": [[rng.randint(-5, 5) for _ in range(nm)] for _ in range(d * n)]})
         else:
             n = rng.randint(1, 24)
@@ -414,7 +501,7 @@ def gen_records(rng, nrec):
                 if any(q):
                     qs.append(q)
             recs.append({"m": "decomp", "id": len(recs), "d": d, "M": M, "L": L, "S": rng.choice([1, 4]),
-                         "pm": [[rng.randint(0, M - 1) for _ in range(d)] for _ in range(n)],
+                         "pm": [[rng.randint(-M, 2 * M - 1) for _ in range(d)] for _ in range(n)],
                          "e": [[rng.randint(-4, 4) for _ in range(d)] for _ in range(n)], "qs": qs})
     return recs
 
